@@ -62,6 +62,9 @@ def run(model, res, tier):
     res.rule('RX', 'where a function answers "an error rather than a value" by raising, the catch-all of parse() turns every exception class into #ERROR! (shared with C01.R1)')
     from . import c01 as _c01
     H.borrow(res, 'RX', 'catch-all of parse()', lambda tmp: _c01.catch_all_rule(model, tmp, c))
+    res.rule('R10', 'a text literal is the text that was written: the formula is not transformed as a whole (case mapping, translate, replace, regex substitution, normalisation) in front of the lexer (shared with C05.R9)')
+    from . import c05 as _c05
+    H.borrow(res, 'R10', 'formula text', lambda tmp: _c05.literal_text_rule(model, tmp, c, 'R10', 'a criterion (or a text item) written as a literal'))
     purity.check_region(res, c, 'R8', 'R8', region, 'an aggregate')
     purity.check_memo(res, c, 'R8', region, 'an aggregate')
 
